@@ -393,6 +393,27 @@ func build(d D) (reflect.Value, error) {
 		case "mlist":
 			n, _ := toI64(a["n"])
 			return reflect.ValueOf(MList{N: int(n)}), nil
+		case "pmoney":
+			c, _ := toI64(a["cents"])
+			return reflect.ValueOf(PMoney{Cents: c, Currency: dstr(a, "cur")}), nil
+		case "pint":
+			n, _ := toI64(a["n"])
+			return reflect.ValueOf(PInt(n)), nil
+		case "many", "pany":
+			var held data.Value // MarshalValue returns this; "gonil" = the nil interface
+			if x, ok := asD(a["v"]); ok && dstr(x, "t") != "gonil" {
+				sv, err := parseSV(x)
+				if err != nil {
+					return reflect.Value{}, err
+				}
+				if held, err = sv.toData(); err != nil {
+					return reflect.Value{}, err
+				}
+			}
+			if dstr(d, "ty") == "many" {
+				return reflect.ValueOf(MAny{V: held}), nil
+			}
+			return reflect.ValueOf(PAny{V: held}), nil
 		}
 		return reflect.Value{}, fmt.Errorf("unknown marshaler %q", dstr(d, "ty"))
 	case "value":
